@@ -130,6 +130,101 @@ namespace plan
       top.nums.push_back({it->local, "start"});
       top.nums.push_back({it->local, "end"});
     }
+    else if (n == "r_use")
+    { // a Use fact inside a rule body: becomes active only when the goal is activated by the search
+      if (m.rr_names.empty() || m.preds.empty() || m.unit != 0)
+        return;
+      int p = static_cast<int>(modn(op.arg(0), m.preds.size()));
+      int nsub = 0;
+      for (auto &bi : m.preds[p].body)
+        if (bi->k == BodyItem::SUBGOAL)
+          ++nsub;
+      if (nsub >= 2)
+        return;
+      auto it = std::make_shared<BodyItem>();
+      it->k = BodyItem::SUBGOAL;
+      it->pred = -2;
+      it->is_fact = true;
+      it->local = "s" + std::to_string(m.n_locals++);
+      size_t ri = static_cast<size_t>(modn(op.arg(1), m.rr_names.size()));
+      it->scope = {m.rr_names[ri]};
+      static const char *amts[] = {"1", "3/2", "2", "5/2", "4", "1/2"};
+      Arg a;
+      a.param = "amount";
+      a.val.k = mpq_class(amts[modn(op.arg(2), 6)]);
+      if (a.val.k > m.rr_caps[ri])
+        a.val.k = m.rr_caps[ri];
+      it->args.push_back(a);
+      const bool interval = p_interval(m.preds[p]);
+      if (interval && (op.arg(3) & 1))
+      { // the resource is used for as long as the goal lasts: no own temporal variable changes when the goal is activated
+        Arg st, en;
+        st.param = "start";
+        st.val.t.push_back({mpq_class(1), {"start"}});
+        en.param = "end";
+        en.val.t.push_back({mpq_class(1), {"end"}});
+        it->args.push_back(st);
+        it->args.push_back(en);
+      }
+      else
+      {
+        Arg d;
+        d.param = "duration";
+        d.val.k = mpq_class(modn(op.arg(4), 3) + 1);
+        it->args.push_back(d);
+      }
+      m.preds[p].body.push_back(it);
+    }
+    else if (n == "disj")
+    { // a top-level disjunction statement: { constraint; [fact on a resource] } or { ... }
+      if (top.nums.empty())
+        return;
+      auto d = std::make_shared<BodyItem>();
+      d->k = BodyItem::DISJ;
+      size_t pos = 0;
+      std::string text;
+      for (int br = 0; br < 2; ++br)
+      {
+        std::vector<std::shared_ptr<BodyItem>> items;
+        BP b = parse_rel(op, pos, top, false);
+        long slack = op.arg(pos++), use = op.arg(pos++), ua = op.arg(pos++), ud = op.arg(pos++), us = op.arg(pos++);
+        std::string bt;
+        if (b && (!b->l.t.empty() || !b->r.t.empty()))
+        {
+          if (br == 0 && planting(slack >> 2))
+            plant_rel(b, true, slack);
+          mention(b);
+          auto it = std::make_shared<BodyItem>();
+          it->k = BodyItem::ASSERT;
+          it->b = b;
+          items.push_back(it);
+          std::string t = btext(b);
+          if (t[0] == '-')
+            t = "0.0 - " + t.substr(1);
+          bt += " " + t + ";";
+        }
+        if (!m.rr_names.empty() && (use & 1))
+        {
+          size_t ri = static_cast<size_t>(modn(use >> 1, m.rr_names.size()));
+          static const char *amts[] = {"1", "3/2", "2", "5/2", "4", "1/2"};
+          mpq_class amount(amts[modn(ua, 6)]);
+          if (amount > m.rr_caps[ri])
+            amount = m.rr_caps[ri];
+          std::string nm = "u" + std::to_string(m.n_formulas++);
+          bt += " fact " + nm + " = new " + m.rr_names[ri] + ".Use(amount:" + qtext(amount) + ", duration:" + qtext(mpq_class(modn(ud, 3) + 1)) + ", start:" + qtext(mpq_class(modn(us, 4))) + ");";
+        }
+        if (bt.empty())
+          return;
+        d->branches.push_back(items);
+        text += std::string(br ? " or {" : "{") + bt + " }";
+      }
+      Stmt s;
+      s.k = Stmt::DISJ;
+      s.item = d;
+      s.text = text;
+      m.stmts.push_back(s);
+      ++order;
+    }
     else if (n == "horizon")
     { // horizon <= k keeps timelines tight enough for conflicts
       auto b = std::make_shared<B>();
@@ -161,6 +256,8 @@ namespace plan
       {
         if (bi->k == BodyItem::ASSERT)
           s += "  " + btext(bi->b) + ";\n";
+        else if (bi->k == BodyItem::SUBGOAL && bi->pred == -2)
+          s += "  fact " + bi->local + " = new " + ptext(bi->scope) + ".Use(" + args_text(bi->args) + ");\n";
         else if (bi->k == BodyItem::SUBGOAL)
           s += "  goal " + bi->local + " = new " + m.preds[bi->pred].name + "(" + args_text(bi->args) + ");\n";
       }
@@ -172,9 +269,10 @@ namespace plan
       for (size_t i = 0; i < p.rparams.size(); ++i)
         s += (i ? ", " : "") + std::string("real ") + p.rparams[i];
       s += ")";
-      if (p.cls < 0 && p.kind == 1)
+      const bool in_sv = p.cls >= 0 && m.classes[p.cls].is_sv;
+      if (!in_sv && p.kind == 1)
         s += " : Interval";
-      if (p.cls < 0 && p.kind == 2)
+      if (!in_sv && p.kind == 2)
         s += " : Impulse";
       s += " {\n" + body_text(p) + ind + "}\n";
       return s;
@@ -198,6 +296,8 @@ namespace plan
       std::vector<std::pair<std::string, std::string>> ps, sps;
       ctor_params(m, static_cast<int>(ci), ps);
       ctor_params(m, c.super, sps);
+      for (int pi : c.preds)
+        d += pred_text(m.preds[pi], "  ");
       d += "  " + c.name + "(";
       for (size_t i = 0; i < ps.size(); ++i)
         d += (i ? ", " : "") + ps[i].first + " " + ps[i].second;
